@@ -9,7 +9,10 @@ import (
 	"image/color"
 	"io"
 	"math"
+	"os"
+	"regexp"
 	"runtime/debug"
+	"strconv"
 	"strings"
 
 	"github.com/tdewolff/canvas"
@@ -81,6 +84,24 @@ var paths = []pathSpec{
 		p.Close()
 		return p
 	}, "M1 1Q4.5 -1 8 1.5C9.5 4 8 6.5 5 6.5A4 3.5 20 0 1 1 1z"},
+	// ---- geometry menu of family P only (nBasePaths ends here): shapes that exercise the path
+	// data writers (H/V shorthands after each kind of segment, arc flags, several subpaths)
+	parsed("arc, then a line to the x of the arc's start", "M1 1A4 3 0 0 1 7 3L1 6z"),
+	parsed("quad, line to the y of the quad's start, cubic, line to the x of the cubic's start", "M1 1Q4 -1 7 2L9 1C9 4 8 6 5 6L9 7z"),
+	parsed("two triangles, the second starts at the x of the first's start and goes on horizontally", "M2 1L6 1L6 5zM2 5L0 5L0 3z"),
+	parsed("rectangle with a rectangular hole, horizontal and vertical lines only", "M0 0L8 0L8 6L0 6zM2 1L2 4L5 4L5 1z"),
+	parsed("large arcs with both sweep directions, rotated ellipse", "M0 3A3.5 2 30 1 0 6 3A3.5 2 30 1 1 0 3z"),
+	parsed("open: rotated small arc against the sweep, then a vertical line", "M0 0A5 2.5 40 0 0 8 3L8 7"),
+	parsed("large arc then a line back to the start's y", "M2 2A3 3 0 1 1 6 2L4 2L4 0z"),
+	{"ellipse from canvas.Ellipse", func() *canvas.Path { return canvas.Ellipse(4, 2.5).Translate(4, 2.5) }, "Ellipse(4,2.5) translated by (4,2.5)"},
+}
+
+const nBasePaths = 5
+
+var arcRadiiRe = regexp.MustCompile(`A([0-9.]+) ([0-9.]+) `)
+
+func parsed(name, d string) pathSpec {
+	return pathSpec{name, func() *canvas.Path { return canvas.MustParseSVGPath(d) }, d}
 }
 
 // positions of the k-th draw of a program (user coordinates of the Context): successive draws overlap
@@ -250,7 +271,26 @@ func (s styleSpec) apply(ctx *canvas.Context) {
 
 // ---- programs ------------------------------------------------------------------------------
 
-type draw struct{ path, style, view, cs int }
+// draw is one Context call: DrawPath(path) under a style, or (img > 0) DrawImage of test image
+// img-1 at resolution imageRes[res].
+type draw struct{ path, style, view, cs, img, res int }
+
+// Test images, 3 columns x 2 rows, row 0 is the top row. Premultiplied RGBA as image.RGBA stores it.
+var imagePixels = [][6]color.RGBA{
+	{{230, 20, 20, 255}, {20, 200, 20, 255}, {20, 20, 230, 255}, {230, 220, 20, 255}, {20, 210, 220, 255}, {120, 120, 120, 255}},
+	// with an alpha channel: two half-transparent pixels and a fully transparent one
+	{{230, 20, 20, 255}, {10, 100, 10, 128}, {20, 20, 230, 255}, {0, 0, 0, 0}, {20, 210, 220, 255}, {60, 60, 60, 128}},
+}
+var imageNames = []string{"3x2 image of six opaque colours", "3x2 image with alpha (pixels (1,0) and (2,1) at alpha 128, pixel (0,1) transparent)"}
+var imageRes = []float64{0.25, 0.5} // pixels per millimetre: 12 mm x 8 mm and 6 mm x 4 mm
+
+func mkImage(v int) *image.RGBA {
+	im := image.NewRGBA(image.Rect(0, 0, 3, 2))
+	for k, px := range imagePixels[v] {
+		im.SetRGBA(k%3, k/3, px)
+	}
+	return im
+}
 
 type program []draw
 
@@ -258,6 +298,11 @@ func (p program) String() string {
 	var sb strings.Builder
 	sb.WriteString("c := canvas.New(40,24); ctx := canvas.NewContext(c)")
 	for k, d := range p {
+		if d.img > 0 {
+			fmt.Fprintf(&sb, "; ctx.SetCoordSystem(%s); ctx.SetView(%s); ctx.DrawImage(%g,%g, %s, canvas.DPMM(%g))",
+				coordNames[d.cs], views[d.view].name, positions[k][0], positions[k][1], imageNames[d.img-1], imageRes[d.res])
+			continue
+		}
 		fmt.Fprintf(&sb, "; ctx.SetCoordSystem(%s); ctx.SetView(%s); style{%s}; ctx.DrawPath(%g,%g, %s [%s])",
 			coordNames[d.cs], views[d.view].name, styles[d.style].name, positions[k][0], positions[k][1], paths[d.path].name, paths[d.path].text)
 	}
@@ -270,6 +315,10 @@ func (p program) canvas() *canvas.Canvas {
 	for k, d := range p {
 		ctx.SetCoordSystem(coordSystems[d.cs])
 		ctx.SetView(views[d.view].m)
+		if d.img > 0 {
+			ctx.DrawImage(positions[k][0], positions[k][1], mkImage(d.img-1), canvas.DPMM(imageRes[d.res]))
+			continue
+		}
 		styles[d.style].apply(ctx)
 		ctx.DrawPath(positions[k][0], positions[k][1], paths[d.path].build())
 	}
@@ -287,6 +336,42 @@ type expItem struct {
 	knife bool
 	// diagnosis only: the stroke region with the recorded (unscaled) dash lengths
 	unscaled *region
+	// images: the undecidable samples ([0]: within 0.1 cell of a cell border; [1], for the
+	// rasterizer tally: everything but the 0.1-cell neighbourhood of the cell centres, because the
+	// rasterizer interpolates between pixel centres, and 1.5 cells around the image, where its
+	// interpolation kernel and the transparent margin it adds under rotation leave faint paint)
+	imgNear *[2]bits
+}
+
+// expNear returns the samples too close to call for the expected item.
+func expNear(e *expItem) *[2]bits {
+	if e.imgNear != nil {
+		return e.imgNear
+	}
+	return nearBits(e.reg)
+}
+
+// expectedImage turns a recorded image layer into a raster item: RenderImage(img, m) places image
+// pixel coordinates (x to the right, y UP, the image occupying [0,w] x [0,h]) by m; row 0 of the
+// image is its top row, so image space (u,v) (v counting rows from row 0) is (u, h-v) there.
+func expectedImage(op rec.Op, k int) (expItem, string) {
+	b := op.Image.Bounds()
+	w, h := b.Dx(), b.Dy()
+	pix := make([]colour, 0, w*h)
+	for y := b.Min.Y; y < b.Max.Y; y++ {
+		for x := b.Min.X; x < b.Max.X; x++ {
+			n := color.NRGBA64Model.Convert(op.Image.At(x, y)).(color.NRGBA64)
+			pix = append(pix, colour{float64(n.R) / 65535, float64(n.G) / 65535, float64(n.B) / 65535, float64(n.A) / 65535})
+		}
+	}
+	from := matAff(op.M).mul(aff{1, 0, 0, -1, 0, float64(h)})
+	ra, ok := newRaster(w, h, pix, from, 1, fmt.Sprintf("%dx%d", w, h))
+	if !ok {
+		return expItem{}, "image under a singular matrix"
+	}
+	e := expItem{item: item{role: "image", reg: ra.quad("exp"), paint: paint{img: ra}}, op: k}
+	e.imgNear = &[2]bits{*ra.cellBorderBits(0.1, 0.1), *ra.cellBorderBits(0.4, 1.5)}
+	return e, ""
 }
 
 func toColour(c color.RGBA) colour {
@@ -343,6 +428,14 @@ var expOutlineCache = map[string][]oracle.Polyline{}
 func expectedList(ops []rec.Op) ([]expItem, string) {
 	var out []expItem
 	for k, op := range ops {
+		if op.Kind == "image" {
+			e, bad := expectedImage(op, k)
+			if bad != "" {
+				return nil, bad
+			}
+			out = append(out, e)
+			continue
+		}
 		if op.Kind != "path" {
 			return nil, "the canvas replays a " + op.Kind + " layer"
 		}
@@ -638,6 +731,14 @@ func compareLists(r *fw.R, be backend, exp []expItem, act *displayList, ops []re
 			e, a := &exp[k], &act.items[k]
 			st := ops[e.op].Style
 			what := fmt.Sprintf("paint operation %d (%s of draw %d)", k+1, e.role, e.op+1)
+			if e.role == "image" || a.role == "image" {
+				if e.role != a.role {
+					out = append(out, verdict{"paint-order-" + fam, fmt.Sprintf("%s: the canvas paints a %s there, the output a %s; emitted: %s", what, e.role, a.role, a.src)})
+				} else {
+					out = append(out, compareImage(r, be, what, e, a)...)
+				}
+				continue
+			}
 			// role: a stroke may legitimately arrive as an explicit outline (a fill); a fill must be a fill
 			if e.role == "fill" && a.role != "fill" {
 				out = append(out, verdict{"paint-order-" + fam, fmt.Sprintf("%s: the output strokes where the canvas fills; emitted: %s", what, a.src)})
@@ -650,7 +751,7 @@ func compareLists(r *fw.R, be backend, exp []expItem, act *displayList, ops []re
 				r.Outcome("stroke-native-" + fam)
 			}
 			// region
-			eb, near := insideBits(e.reg), nearBits(e.reg)
+			eb, near := insideBits(e.reg), expNear(e)
 			ab := itemInside(a)
 			if a.alt != nil && !e.knife {
 				// dashed closed subpath whose pattern is "on" at both ends: the formats do not say
@@ -724,6 +825,11 @@ func compareLists(r *fw.R, be backend, exp []expItem, act *displayList, ops []re
 					class := "paint-colour-" + fam
 					if coloursClose(e.paint.solid, a.paint.solid, true) {
 						class = "paint-alpha-" + fam
+						for j := 0; j < k; j++ {
+							if exp[j].role == "image" {
+								class = "paint-alpha-after-image-" + fam
+							}
+						}
 					}
 					out = append(out, verdict{class, fmt.Sprintf("%s: the canvas paints %v, the %s output paints %v; emitted: %s", what, e.paint.solid, be.name, a.paint.solid, a.src)})
 				}
@@ -754,6 +860,11 @@ func compareLists(r *fw.R, be backend, exp []expItem, act *displayList, ops []re
 					class := "gradient-" + fam
 					if coloursClose(ce, ca, true) {
 						class = "paint-alpha-" + fam
+						for j := 0; j < k; j++ {
+							if exp[j].role == "image" {
+								class = "paint-alpha-after-image-" + fam
+							}
+						}
 					}
 					out = append(out, verdict{class, fmt.Sprintf("%s: gradient differs at %d samples, worst at (%.3f,%.3f): canvas %v, %s %v (%s); emitted: %s", what, bad, at.X, at.Y, ce, be.name, ca, a.paint, a.src)})
 				}
@@ -765,14 +876,15 @@ func compareLists(r *fw.R, be backend, exp []expItem, act *displayList, ops []re
 	var undecidable bits
 	for k := range exp {
 		items[k] = exp[k].item
-		undecidable.or(&nearBits(exp[k].reg)[0])
+		undecidable.or(&expNear(&exp[k])[0])
 	}
 	ec := composite(items)
 	ac := composite(act.items)
 	topOpaque := func(i int) bool {
 		for k := len(exp) - 1; k >= 0; k-- {
 			if insideBits(exp[k].reg).get(i) {
-				return exp[k].paint.grad == nil && exp[k].paint.solid.a >= 1-1e-9
+				c, ok := exp[k].paint.at(samples[i])
+				return exp[k].paint.grad == nil && ok && c.a >= 1-1e-9
 			}
 		}
 		return true
@@ -842,6 +954,108 @@ func compareLists(r *fw.R, be backend, exp []expItem, act *displayList, ops []re
 	return out
 }
 
+// cornerTol is the tolerance on the four corners of an image (mm). The formats carry 8
+// significant digits (canvas.Precision); a matrix entry of magnitude 40 is then off by up to 5e-7.
+const cornerTol = 1e-6
+
+// compareImage compares one image paint operation: the four corners of the placed image (so that
+// flips and swapped axes are seen exactly), the sample array (size and every sample), the region
+// actually painted (clipping), and the colour at every decidable sample.
+func compareImage(r *fw.R, be backend, what string, e *expItem, a *item) []verdict {
+	var out []verdict
+	fam := be.family
+	isPS := fam == "ps"
+	ei, ai := e.paint.img, a.paint.img
+	dist := func(perm [4]int) float64 {
+		d := 0.0
+		for k := 0; k < 4; k++ {
+			d = math.Max(d, ei.corners[k].Dist(ai.corners[perm[k]]))
+		}
+		return d
+	}
+	d := dist([4]int{0, 1, 2, 3})
+	r.Max("image_corner_error_mm_"+fam, math.Min(d, 1))
+	cs := func(c [4]oracle.Pt) string {
+		return fmt.Sprintf("TL (%.7f,%.7f) TR (%.7f,%.7f) BR (%.7f,%.7f) BL (%.7f,%.7f)", c[0].X, c[0].Y, c[1].X, c[1].Y, c[2].X, c[2].Y, c[3].X, c[3].Y)
+	}
+	if d > cornerTol {
+		class := "image-placement-" + fam
+		switch {
+		case dist([4]int{3, 2, 1, 0}) <= cornerTol:
+			class = "image-flipped-top-bottom-" + fam
+		case dist([4]int{1, 0, 3, 2}) <= cornerTol:
+			class = "image-flipped-left-right-" + fam
+		case dist([4]int{2, 3, 0, 1}) <= cornerTol:
+			class = "image-rotated-180-" + fam
+		}
+		out = append(out, verdict{class, fmt.Sprintf("%s: the corners of the image (its top-left, top-right, bottom-right, bottom-left) are placed at %s by the canvas and at %s by the %s output (largest distance %.3g mm); emitted: %s", what, cs(ei.corners), cs(ai.corners), be.name, d, a.src)})
+	}
+	if ei.w != ai.w || ei.h != ai.h {
+		out = append(out, verdict{"image-size-" + fam, fmt.Sprintf("%s: the image has %dx%d pixels, the %s output carries %dx%d samples; emitted: %s", what, ei.w, ei.h, be.name, ai.w, ai.h, a.src)})
+		return out
+	}
+	for k := range ei.pix {
+		p, q := ei.pix[k], ai.pix[k]
+		if isPS {
+			if p.a < 1-1e-9 {
+				r.Outcome("ps-alpha-not-compared")
+				continue
+			}
+			q.a = 1
+		}
+		if math.Abs(p.r*p.a-q.r*q.a) > colourTol/255 || math.Abs(p.g*p.a-q.g*q.a) > colourTol/255 || math.Abs(p.b*p.a-q.b*q.a) > colourTol/255 || math.Abs(p.a-q.a) > colourTol/255 {
+			class := "image-pixels-" + fam
+			if coloursClose(p, q, true) || p.a == 0 {
+				class = "image-alpha-channel-" + fam
+			}
+			out = append(out, verdict{class, fmt.Sprintf("%s: pixel (column %d, row %d) is %v in the image and %v in the %s output; emitted: %s", what, k%ei.w, k/ei.w, p, q, be.name, a.src)})
+			break
+		}
+	}
+	if ai.alpha != 1 && !isPS {
+		out = append(out, verdict{"image-alpha-constant-" + fam, fmt.Sprintf("%s: the image is painted under a constant alpha of %.4g; emitted: %s", what, ai.alpha, a.src)})
+	}
+	// region actually painted (clipping paths) and the colours at the samples
+	eb, near := insideBits(e.reg), expNear(e)
+	ab := itemInside(a)
+	if len(out) == 0 {
+		if n, first := regionDiff(eb, ab, &near[0]); n > 0 {
+			q := samples[first]
+			out = append(out, verdict{"image-clipped-" + fam, fmt.Sprintf("%s: %d decidable samples differ between the image's quad and what the output paints of it (%d clipping paths), first (%.3f,%.3f): canvas inside=%v, %s inside=%v; emitted: %s", what, n, len(a.clips), q.X, q.Y, eb.get(first), be.name, ab.get(first), a.src)})
+		}
+	}
+	nbad, ncmp := 0, 0
+	var first string
+	for i, q := range samples {
+		if near[0].get(i) || !eb.get(i) {
+			continue
+		}
+		c1, _ := e.paint.at(q)
+		c2, ok2 := a.paint.at(q)
+		if isPS {
+			if c1.a < 1-1e-9 {
+				continue
+			}
+		}
+		ncmp++
+		bad := !ok2 || !ab.get(i) || math.Abs(c1.r*c1.a-c2.r*c2.a) > colourTol/255 || math.Abs(c1.g*c1.a-c2.g*c2.a) > colourTol/255 || math.Abs(c1.b*c1.a-c2.b*c2.a) > colourTol/255 || math.Abs(c1.a-c2.a) > colourTol/255
+		if bad {
+			nbad++
+			if first == "" {
+				first = fmt.Sprintf("(%.3f,%.3f): the image has %v there, the %s output %v (painted there: %v)", q.X, q.Y, c1, be.name, c2, ok2 && ab.get(i))
+			}
+		}
+	}
+	r.Count("image_cell_samples_compared_"+fam, int64(ncmp))
+	if nbad > 0 && len(out) == 0 {
+		out = append(out, verdict{"image-samples-" + fam, fmt.Sprintf("%s: %d of %d samples inside pixel cells differ, first %s; emitted: %s", what, nbad, ncmp, first, a.src)})
+	}
+	if len(out) == 0 {
+		r.Outcome("image-agrees-" + fam)
+	}
+	return out
+}
+
 func koNote(act *displayList) string {
 	for _, it := range act.items {
 		if it.knocksOutPrev {
@@ -892,10 +1106,10 @@ func rasterTally(r *fw.R, c *canvas.Canvas, exp []expItem) {
 	var undecidable bits
 	for k := range exp {
 		items[k] = exp[k].item
-		undecidable.or(&nearBits(exp[k].reg)[1])
+		undecidable.or(&expNear(&exp[k])[1])
 	}
 	ec := composite(items)
-	nbad, n := 0, 0
+	nbad, n, nimg := 0, 0, 0
 	for i, q := range samples {
 		if undecidable.get(i) {
 			continue
@@ -904,13 +1118,21 @@ func rasterTally(r *fw.R, c *canvas.Canvas, exp []expItem) {
 		got := img.RGBAAt(px, py)
 		g := [4]float64{float64(got.R), float64(got.G), float64(got.B), float64(got.A)}
 		n++
+		tol := 5.0
+		for k := range exp {
+			if exp[k].role == "image" && insideBits(exp[k].reg).get(i) {
+				tol = 60 // the rasterizer interpolates (Catmull-Rom, with a transparent margin when rotated): only a wrong pixel shows
+				nimg++
+			}
+		}
 		for ch := 0; ch < 4; ch++ {
-			if math.Abs(g[ch]-ec[i][ch]) > 5 {
+			if math.Abs(g[ch]-ec[i][ch]) > tol {
 				nbad++
 				break
 			}
 		}
 	}
+	r.Count("rasterizer_samples_compared_near_image_pixel_centres", int64(nimg))
 	r.Count("rasterizer_samples_compared", int64(n))
 	r.Count("rasterizer_samples_disagreeing", int64(nbad))
 	if nbad == 0 {
@@ -937,7 +1159,7 @@ func checkProgram(r *fw.R, p program, bes []backend, raster bool) {
 	nontrivial := false
 	for k := range exp {
 		in := insideBits(exp[k].reg)
-		near := nearBits(exp[k].reg)
+		near := expNear(&exp[k])
 		nin := 0
 		for w := range in {
 			x := in[w] &^ near[0][w]
@@ -987,8 +1209,25 @@ func checkProgram(r *fw.R, p program, bes []backend, raster bool) {
 
 func decodeDraw(g []int) draw { return draw{path: g[1], style: g[0], view: g[2], cs: g[3]} }
 
+// families returns the case spaces of the tier. C12_FAMILIES (development aid) restricts a run to
+// the families whose name starts with one of the given letters, e.g. C12_FAMILIES=IJK.
 func families(tier string) []fw.Family {
-	nS, nP, nV, nC := len(styles), len(paths), len(views), len(coordSystems)
+	all := allFamilies(tier)
+	sel := os.Getenv("C12_FAMILIES")
+	if sel == "" {
+		return all
+	}
+	var out []fw.Family
+	for _, f := range all {
+		if strings.ContainsRune(sel, rune(f.Name[0])) {
+			out = append(out, f)
+		}
+	}
+	return out
+}
+
+func allFamilies(tier string) []fw.Family {
+	nS, nP, nV, nC := len(styles), nBasePaths, len(views), len(coordSystems)
 	main3 := backends[:3]
 	var fs []fw.Family
 
@@ -1004,12 +1243,69 @@ func families(tier string) []fw.Family {
 		Check: func(i int64, r *fw.R) { checkUnits(r, backends[i]) },
 		Desc:  func(i int64) string { return "one filled square on canvas.New(40,24) through " + backends[i].name }})
 
+	// P: the path data writers: every shape of the extended geometry menu, filled and stroked
+	pStyles := []int{0, 5, 4}
+	radP := []int{len(pStyles), len(paths) - nBasePaths, nV, nC}
+	progP := func(i int64) program {
+		g := oracle.Digits(i, radP...)
+		return program{{path: nBasePaths + g[1], style: pStyles[g[0]], view: g[2], cs: g[3]}}
+	}
+	fs = append(fs, fw.Family{Name: "P depth 1: path data: {fill, stroke, fill EvenOdd} x extended geometry menu x view x coordinate system", N: oracle.Prod(radP...),
+		Check: func(i int64, r *fw.R) { checkProgram(r, progP(i), main3, true) },
+		Desc:  func(i int64) string { return progP(i).String() }})
+
 	// G: gradients with more stops
 	fs = append(fs, fw.Family{Name: "G gradient stop lists x {SVG, PDF}", N: int64(len(gradientCases) * 2),
 		Check: func(i int64, r *fw.R) { checkGradient(r, int(i)/2, []backend{backends[0], backends[1]}[i%2]) },
 		Desc: func(i int64) string {
 			return fmt.Sprintf("fill of a 30x16 rectangle with %s through %s", gradientCases[i/2].name, []string{"SVG", "PDF"}[i%2])
 		}})
+
+	// I: one image draw through all six back-end variants
+	nI, nR := len(imagePixels), len(imageRes)
+	radI := []int{nI, nR, nV, nC}
+	progI := func(i int64) program {
+		g := oracle.Digits(i, radI...)
+		return program{{img: g[0] + 1, res: g[1], view: g[2], cs: g[3]}}
+	}
+	fs = append(fs, fw.Family{Name: "I depth 1: DrawImage: image x resolution x view x coordinate system, 6 back-end variants", N: oracle.Prod(radI...),
+		Check: func(i int64, r *fw.R) { checkProgram(r, progI(i), backends, true) },
+		Desc:  func(i int64) string { return progI(i).String() }})
+	// J: an image and a path draw, in both orders (paint order, state set for one leaking into the other)
+	jPaths := []int{0, 1}
+	jViews := []int{0}
+	if tier == "thorough" {
+		jPaths = []int{0, 1, 2, 3, 4}
+		jViews = []int{0, 1, 2, 3}
+	}
+	radJ := []int{2, nS, len(jPaths), nI, nR, nV, nC, len(jViews)}
+	progJ := func(i int64) program {
+		g := oracle.Digits(i, radJ...)
+		pd := draw{path: jPaths[g[2]], style: g[1], view: jViews[g[7]]}
+		id := draw{img: g[3] + 1, res: g[4], view: g[5], cs: g[6]}
+		if g[0] == 0 {
+			return program{pd, id}
+		}
+		return program{id, pd}
+	}
+	fs = append(fs, fw.Family{Name: "J depth 2: {path then image, image then path} x style x path x image x resolution x image view x coordinate system x path view", N: oracle.Prod(radJ...),
+		Check: func(i int64, r *fw.R) { checkProgram(r, progJ(i), main3, i%4 == 0) },
+		Desc:  func(i int64) string { return progJ(i).String() }})
+	// K: path, image, path: what the image's own graphics state (q..Q, gsave..grestore, alpha) leaves behind
+	kViews := []int{0, 1}
+	kCS := []int{1}
+	if tier == "thorough" {
+		kViews = []int{0, 1, 2, 3}
+		kCS = []int{0, 1}
+	}
+	radK := []int{nS, nS, nI, len(kViews), len(kCS)}
+	progK := func(i int64) program {
+		g := oracle.Digits(i, radK...)
+		return program{{path: 0, style: g[0]}, {img: g[2] + 1, res: 1, view: kViews[g[3]], cs: kCS[g[4]]}, {path: 2, style: g[1]}}
+	}
+	fs = append(fs, fw.Family{Name: "K depth 3: path, image, path: style x style x image x image view x coordinate system", N: oracle.Prod(radK...),
+		Check: func(i int64, r *fw.R) { checkProgram(r, progK(i), main3, i%5 == 0) },
+		Desc:  func(i int64) string { return progK(i).String() }})
 
 	if tier != "thorough" {
 		// B: all ordered style pairs on every combination of views, two geometry pairings
@@ -1068,6 +1364,8 @@ func Prop() *fw.Property {
 			"it must equal, operation by operation (count, order, region on the samples farther than 0.15 mm from the expected boundary, paint within 3/255) and after source-over compositing on 3840 sample points, the display list derived from the canvas's recorded layers by the rasterizer's semantics (fill = m·path under the fill rule; stroke = m·Stroke(Dash(path, dashes x width))). " +
 			"states = programs, transitions = draw calls, validated = (program, back-end) pairs compared; non-trivial = some expected region has decidable samples inside",
 		Assumptions: []string{
+			"image draws (families I, J, K): ctx.DrawImage of a 3x2 image (six opaque colours; a variant with two pixels at alpha 128 and one transparent) at 0.25 and 0.5 px/mm x 4 views x 2 coordinate systems, alone through all six back-end variants, with a path draw before or after, and between two path draws; expected from the recorded layer: image pixel (i,j) (row 0 on top) is the cell m·[i,i+1]x[h-j-1,h-j]; the back-end's image (SVG <image> + data: URI decoded with image/png, PDF Do of an image XObject incl. SMask decoded through pdfread, PostScript dictionary-form image with its ImageMatrix and ASCII85/Flate data from currentfile) must have its four corners within 1e-6 mm, the same sample array (3/255), and the same colour at every sample point farther than 0.1 cell from a cell border; lossy (JPEG) encoding is outside the bound; image interpolation is not modelled",
+			"the rasterizer interpolates images (Catmull-Rom, transparent margin under rotation): it is tallied against the expected cells only within 0.1 cell of the pixel centres, tolerance 60/255, and not within 1.5 cells around an image",
 			"menus: 26 styles (each one field away from a base style), 5 paths, 4 views, 2 coordinate systems, positions fixed per draw index; quick: depth 1 full product, depth 2 styles^2 x views^2 x 5 path pairings x 2, depth 3 styles^3 / full depth-2 product (1 081 600 programs) and styles^3 x views^2 at depth 3 (thorough)",
 			"natively emitted strokes are materialised from the PARSED parameters with canvas's own Dash/Stroke in user space and mapped through the parsed CTM (C04/C05 judge Dash/Stroke themselves); where a dashed closed subpath returns to its start with the pattern on at both ends, both readings (two caps / one dash running through with a join) are accepted",
 			"PostScript: geometry is compared relative to the %%BoundingBox (the absolute unit is checked once in family U); paints with alpha<1 and gradients are not compared for PS (alpha is documented as unsupported)",
@@ -1076,6 +1374,10 @@ func Prop() *fw.Property {
 		},
 		Families: families,
 		KnownPredicates: map[string]func(*fw.Violation) bool{
+			// PDF: DrawImage sets alpha 1 inside q..Q; Q restores the old alpha, the writer's cache keeps 1
+			"pdf-alpha-cache-after-image": func(v *fw.Violation) bool {
+				return v.Class == "paint-alpha-after-image-pdf" && strings.Contains(v.Case, "DrawImage") && (strings.Contains(v.Case, "alpha 0.5") || strings.Contains(v.Case, "gradient"))
+			},
 			// PDF: SetFill/SetStroke return early on a cached paint without restoring the shared alpha constant
 			"pdf-alpha-after-cached-paint": func(v *fw.Violation) bool {
 				return v.Class == "paint-alpha-pdf" && (strings.Contains(v.Case, "alpha 0.5") || strings.Contains(v.Case, "gradient")) && strings.Count(v.Case, "DrawPath") >= 2
@@ -1095,6 +1397,21 @@ func Prop() *fw.Property {
 			// PDF: fill and stroke with equal alpha < 1 are painted by one operator (b/B), a knockout group
 			"pdf-fill-stroke-one-operator-alpha": func(v *fw.Violation) bool {
 				return v.Class == "fill-stroke-one-operator-alpha-pdf" && strings.Contains(v.Case, "fill red alpha 0.5 + stroke blue alpha 0.5")
+			},
+			// rasterizer: canvas strokes an elliptical arc A rx ry with the arcs A rx+-w/2 ry+-w/2 (C04 K27),
+			// the back-ends stroke natively: the regions differ for stroked arcs with an axis ratio >= 2
+			"stroked-elliptical-arc-axis-ratio-2-or-more": func(v *fw.Violation) bool {
+				if !strings.HasPrefix(v.Class, "stroke-region-") || !strings.Contains(v.Case, "stroke") {
+					return false
+				}
+				for _, m := range arcRadiiRe.FindAllStringSubmatch(v.Case, -1) {
+					rx, _ := strconv.ParseFloat(m[1], 64)
+					ry, _ := strconv.ParseFloat(m[2], 64)
+					if rx > 0 && ry > 0 && (rx >= 2*ry || ry >= 2*rx) {
+						return true
+					}
+				}
+				return false
 			},
 			// PS/EPS: millimetres are written as PostScript points
 			"ps-millimetres-as-points": func(v *fw.Violation) bool {
